@@ -25,7 +25,11 @@ impl K {
 enum Prim { Undef, Null, Bool(bool), Num(f64), Str(String), Ref(K) }
 #[derive(Default, Debug)]
 struct ObjModel { props: BTreeMap<String, Prim>, elems: Vec<Prim>, is_array: bool }
-struct Val { p: *mut TsRunValue, ctx: usize, k: K, freed: bool, prim: Prim, content: Option<Rc<RefCell<ObjModel>>>, strptr: *const c_char, origin: &'static str }
+struct Val { p: *mut TsRunValue, ctx: usize, k: K, freed: bool, prim: Prim, content: Option<Rc<RefCell<ObjModel>>>, strptr: *const c_char, origin: &'static str,
+    /// handle lent by the context (order payload): usable while the order is outstanding, never released by the host
+    borrowed: bool,
+    /// JSON rendering taken when the handle was obtained; an object nobody mutated must keep rendering the same
+    snap: Option<String> }
 #[derive(Clone, PartialEq, Debug)]
 enum Ex { Idle, Prepared(u8), NeedImports(u8), Suspended(u8, Vec<u64>), Completed(u8), Errored(u8) }
 struct Ctx { p: *mut TsRunContext, alive: bool, ex: Ex, steps: u32, inflight: Vec<u8> }
@@ -133,7 +137,7 @@ impl World {
     fn c0i(&self) -> Option<usize> { self.ctxs.iter().rposition(|c| c.alive) }
     /// newest (which=0) or oldest (which=1) live value of a kind belonging to a live context (or any context for Free)
     fn pick(&self, k: K, which: u8, need_live_ctx: bool) -> Option<usize> {
-        let it: Vec<usize> = self.vals.iter().enumerate().filter(|(_, v)| !v.freed && v.k == k && (!need_live_ctx || (self.ctxs[v.ctx].alive && Some(v.ctx) == self.c0i()))).map(|(i, _)| i).collect();
+        let it: Vec<usize> = self.vals.iter().enumerate().filter(|(_, v)| !v.freed && v.k == k && (need_live_ctx || !v.borrowed) && (!need_live_ctx || (self.ctxs[v.ctx].alive && Some(v.ctx) == self.c0i()))).map(|(i, _)| i).collect();
         if which == 0 { it.last().copied() } else { it.first().copied() }
     }
     fn before_call(&mut self) { if self.gcmode == 1 { tsrun::gc::verif::arm_collect_at(vec![tsrun::gc::verif::alloc_ordinal() + 1]); } }
@@ -179,7 +183,7 @@ impl World {
                 }
                 if n > s.len() && !sp.is_null() && !s.is_empty() { let all = std::slice::from_raw_parts(sp as *const u8, n); Prim::Str(String::from_utf8_lossy(all).to_string()) } else { Prim::Str(s) } }
             other => Prim::Ref(other) };
-        self.vals.push(Val { p, ctx, k, freed: false, prim, content, strptr: ptr::null(), origin });
+        self.vals.push(Val { p, ctx, k, freed: false, prim, content, strptr: ptr::null(), origin, borrowed: false, snap: None });
         Some(self.vals.len() - 1)
     }
     fn prim_of(&self, i: usize) -> Prim { self.vals[i].prim.clone() }
@@ -254,7 +258,7 @@ impl World {
 
     // ---------------------------------------------------------------- canonical model state
     fn key(&self) -> String {
-        let mut vs: Vec<String> = self.vals.iter().filter(|v| !v.freed).map(|v| format!("{}{}{}{}", v.k.code(), v.ctx, if self.ctxs[v.ctx].alive { "" } else { "!" },
+        let mut vs: Vec<String> = self.vals.iter().filter(|v| !v.freed).map(|v| format!("{}{}{}{}{}", v.k.code(), v.ctx, if self.ctxs[v.ctx].alive { "" } else { "!" }, if v.borrowed { "~" } else { "" },
             match &v.content { Some(c) => { let c = c.borrow(); format!("{{{:?}{:?}}}", c.props, c.elems) } None => match &v.prim { Prim::Num(n) => format!("{}", n), Prim::Str(s) => format!("{:?}", s), Prim::Bool(b) => format!("{}", b), _ => String::new() } })).collect();
         vs.sort();
         let cx: Vec<String> = self.ctxs.iter().map(|c| format!("{}:{:?}:{:?}:{}", c.alive, c.ex, c.inflight, c.steps)).collect();
@@ -287,7 +291,9 @@ impl World {
             STEP_SUSPENDED => {
                 let mut ids = match &self.ctxs[ci].ex { Ex::Suspended(_, ids) => ids.clone(), _ => vec![] };
                 for i in 0..sr.pending_count { let o = &*sr.pending_orders.add(i); if ids.contains(&o.id) { self.bad(format!("order {} reported twice", o.id)); } ids.push(o.id);
-                    if o.payload.is_null() { self.bad("pending order with NULL payload".into()); } else { let r = self.render(o.payload); self.trace.push(format!("order{}={}", o.id, r)); } }
+                    if o.payload.is_null() { self.bad("pending order with NULL payload".into()); } else { let r = self.render(o.payload); self.trace.push(format!("order{}={}", o.id, r));
+                        // the payload handle stays usable while the order is outstanding ("owned by context": never released by the host)
+                        if let Some(vi) = self.adopt(o.payload, ci, None, "order-payload", None) { self.vals[vi].borrowed = true; if self.vals[vi].k.is_objectish() { self.vals[vi].snap = Some(r); } } } }
                 self.ctxs[ci].ex = Ex::Suspended(prog.unwrap_or(255), ids);
             }
             STEP_DONE => { if matches!(self.ctxs[ci].ex, Ex::Prepared(_)) { self.bad("DONE right after a successful prepare".into()); } }
@@ -352,15 +358,17 @@ impl World {
                 let same = match (&now, &self.vals[i].prim) { (Prim::Num(a), Prim::Num(b)) => a.to_bits() == b.to_bits() || (a.is_nan() && b.is_nan()), (a, b) => a == b };
                 if !same { self.bad(format!("value changed under a live handle: {:?} -> {:?}", self.vals[i].prim, now)); }
                 let t = tsrun_typeof(p); let want = match self.vals[i].k { K::Undef => 0, K::Null => 1, K::Bool => 2, K::Num => 3, K::Str => 4, _ => 5 }; if t != want { self.bad(format!("typeof changed to {} for a {:?}", t, self.vals[i].k)); }
+                if let Some(sn) = self.vals[i].snap.clone() { let now = self.render(p); if now != sn { self.bad(format!("object behind a live {} handle changed without being written: {} -> {}", self.vals[i].origin, sn, now)); } }
                 if self.vals[i].k == K::Arr { if let Some(m) = &self.vals[i].content { let n = tsrun_array_len(p); if n != m.borrow().elems.len() { self.bad(format!("array_len {} but the model has {}", n, m.borrow().elems.len())); } } } } }
             Act::Get(hc, key) => { if let (Some(i), Some(ci)) = (self.pick(K::from_code(*hc), 0, true), ci) { let k = cs(KEYS[*key as usize]); let r = tsrun_get(c, self.vals[i].p, k.as_ptr()); let p = self.vres("get", r, Some(true));
                 let expect = self.vals[i].content.as_ref().map(|m| m.borrow().props.get(KEYS[*key as usize]).cloned().unwrap_or(Prim::Undef));
                 let j = self.adopt(p, ci, None, "get", None);
                 if let (Some(j), Some(e)) = (j, expect) { if self.vals[i].k == K::Obj { let got = self.prim_of(j); let ok = match (&e, &got) { (Prim::Ref(_), Prim::Ref(_)) => true, (Prim::Num(a), Prim::Num(b)) => a.to_bits() == b.to_bits() || (a.is_nan() && b.is_nan()), (a, b) => a == b }; if !ok { self.bad(format!("get({}) gives {:?}, the model says {:?}", KEYS[*key as usize], got, e)); } } } } }
             Act::Set(hc, key, vc) => { if let (Some(i), Some(j)) = (self.pick(K::from_code(*hc), 0, true), self.pick(K::from_code(*vc), 0, true)) { let k = cs(KEYS[*key as usize]); let r = tsrun_set(c, self.vals[i].p, k.as_ptr(), self.vals[j].p); let ok = self.res_ok("set", r, Some(true));
+                self.vals[i].snap = None;
                 if ok { let pv = self.prim_of(j); if let Some(m) = &self.vals[i].content { m.borrow_mut().props.insert(KEYS[*key as usize].into(), pv); } } } }
             Act::Has(hc, key) => { if let Some(i) = self.pick(K::from_code(*hc), 0, true) { let k = cs(KEYS[*key as usize]); let h = tsrun_has(c, self.vals[i].p, k.as_ptr()); if let Some(m) = &self.vals[i].content { if self.vals[i].k == K::Obj { let want = m.borrow().props.contains_key(KEYS[*key as usize]); if h != want { self.bad(format!("has({}) = {}, the model says {}", KEYS[*key as usize], h, want)); } } } } }
-            Act::Del(hc, key) => { if let Some(i) = self.pick(K::from_code(*hc), 0, true) { let k = cs(KEYS[*key as usize]); let r = tsrun_delete(c, self.vals[i].p, k.as_ptr()); let ok = self.res_ok("delete", r, None); if ok { if let Some(m) = &self.vals[i].content { m.borrow_mut().props.remove(KEYS[*key as usize]); } } } }
+            Act::Del(hc, key) => { if let Some(i) = self.pick(K::from_code(*hc), 0, true) { let k = cs(KEYS[*key as usize]); let r = tsrun_delete(c, self.vals[i].p, k.as_ptr()); let ok = self.res_ok("delete", r, None); self.vals[i].snap = None; if ok { if let Some(m) = &self.vals[i].content { m.borrow_mut().props.remove(KEYS[*key as usize]); } } } }
             Act::Keys(hc) => { if let Some(i) = self.pick(K::from_code(*hc), 0, true) { let mut n: usize = 0; let ks = tsrun_keys(c, self.vals[i].p, &mut n); let mut got = vec![];
                 if !ks.is_null() { for x in 0..n { let mut pr = vec![]; if let Some(s) = check_cstr(*ks.add(x), "keys", &mut pr) { got.push(s); } else { self.bad("keys: NULL entry".into()); } for y in pr { self.bad(y); } } tsrun_free_strings(ks, n); } else if n != 0 { self.bad(format!("keys returned NULL with count {}", n)); }
                 if let Some(m) = &self.vals[i].content { if self.vals[i].k == K::Obj { let mut want: Vec<String> = m.borrow().props.keys().cloned().collect(); want.sort(); got.sort(); if want != got { self.bad(format!("keys {:?}, the model says {:?}", got, want)); } } } } }
@@ -495,7 +503,7 @@ impl World {
         // release everything in the order "contexts first, then surviving values" on even histories, the reverse on odd ones
         let ctx_first = self.vals.len() % 2 == 0;
         if ctx_first { for c in self.ctxs.iter_mut() { if c.alive { tsrun_free(c.p); c.alive = false; } } }
-        for v in self.vals.iter_mut() { if !v.freed { tsrun_value_free(v.p); v.freed = true; } }
+        for v in self.vals.iter_mut() { if !v.freed && !v.borrowed { tsrun_value_free(v.p); v.freed = true; } }
         for c in self.ctxs.iter_mut() { if c.alive { tsrun_free(c.p); c.alive = false; } }
     }
 }
